@@ -91,6 +91,16 @@ theorem cost_eq (c : Ctx) (path : List Nat) (p : P) :
     simp only [Function.comp]
     rw [← chain_total]
     simp only [List.map_cons, List.map_nil, ih]
+  | branch id a b iha ihb =>
+    simp only [cost, exec]
+    split
+    · exact iha path
+    · exact ihb path
+
+theorem afterP_cost (c : Ctx) (path : List Nat) (l : List String) : cost c path (afterP l) = (total l, true) := by
+  induction l with
+  | nil => simp [afterP, cost, total]
+  | cons i rest ih => simp [afterP, cost, chainN, ih, total]
 
 /-- cost of `n` iterations each costing `k` and ending normally, followed by `rest` -/
 theorem chainN_replicate (n k : Nat) (rest : List (Nat × Bool)) :
